@@ -13,8 +13,9 @@ from ..run import need
 
 PROP = Property(
     'C10', 'exploration',
-    rule=('Generated: directories named the way the BMC names them (<16 decimal digits>_<%08X entry id>, no id being a '
-          'substring of another name), platform log ids and entry ids over the whole 32-bit range with boosted small '
+    rule=('Generated: directories whose files are mostly named the way the BMC names them (<16 decimal digits>_<%08X '
+          'entry id>, no id being a substring of another name; some names start with a dot, hold blanks / brackets / a '
+          'star, carry an extension, and the directory itself may be called logs[2024], lo*gs, l?gs, .logs, ...), platform log ids and entry ids over the whole 32-bit range with boosted small '
           'values (0, 1, 4, 0x0FFFFFFF), several PELs sharing a platform log id, BMC ids, reference codes of 8 hex '
           'characters, PEL classes (hidden / non-serviceable / informational) drawn freely and NO selection option. '
           'Queries: every present id and near misses, spelled XXXXXXXX / 0xXXXXXXXX / 0Xxxxxxxxx; --src substrings '
@@ -22,12 +23,18 @@ PROP = Property(
           'shown) equals the reference answer computed from the models. Non-trivial = directory with >= 4 PELs whose '
           'answer is a non-empty proper subset containing a hidden or non-serviceable PEL.'),
     assumptions=['reference codes are 8 characters and exclusion files hold complete codes, one per line',
-                 'BMC ids are queried in canonical decimal spelling', 'file names follow the BMC convention'],
+                 'BMC ids are queried in canonical decimal spelling', 'every file name contains its entry id'],
     design_ref='4/C10')
 
 
-def fname(i, eid):
-    return '%016d_%08X' % (1718273645091827 + i, eid)
+def fname(i, eid, style='bmc'):
+    base = '%016d_%08X' % (1718273645091827 + i, eid)
+    return {'bmc': base, 'dot': '.' + base, 'blank': 'pel %08X' % eid, 'brackets': '[%08X]' % eid,
+            'star': '%08X*' % eid, 'ext': base + '.pel'}[style]
+
+
+DIR_NAMES = ['logs', 'logs', 'logs', 'logs[2024]', 'lo*gs', 'l?gs', 'logs dir', '.logs', '[l]ogs', 'logs]']
+NAME_STYLES = ['bmc'] * 8 + ['dot', 'blank', 'brackets', 'star', 'ext']
 
 
 @st.composite
@@ -69,7 +76,10 @@ def case_strategy(draw, tier):
         for k in range(draw(st.integers(1, 4))):
             junk.append([draw(st.sampled_from(['0000_junk%d', 'zzzz_junk%d', '1718273645091827_junk%d', 'README%d'])) % k,
                          draw(st.sampled_from([b'', b'not a PEL', b'PH\x00\x30', b'\xff' * 80]))])
-    return {'pels': pels, 'query': q, 'hex': False, 'junk': junk}
+    return {'pels': pels, 'query': q, 'hex': False, 'junk': junk,
+            # "all directories": directory and file names that mean something to glob / the shell
+            'dirname': draw(st.sampled_from(DIR_NAMES)),
+            'styles': [draw(st.sampled_from(NAME_STYLES)) for _ in pels]}
 
 
 def spell_id(v, how):
@@ -92,7 +102,10 @@ def hidden_or_nonserviceable(p):
 @PROP.given('lookups', lambda tier: case_strategy(tier), quick=1600, thorough=16000, shards_quick=8)
 def lookups(case, note):
     pels, q = case['pels'], case['query']
-    names = [fname(i, p['ph']['eid']) for i, p in enumerate(pels)]
+    styles = case.get('styles') or ['bmc'] * len(pels)
+    names = [fname(i, p['ph']['eid'], styles[i]) for i, p in enumerate(pels)]
+    if case.get('dirname', 'logs') != 'logs' or set(styles) != {'bmc'}:
+        note.label('special-names')
     # soundness of the generator: no id is a substring of another file's name
     for i, p in enumerate(pels):
         e = '%08X' % p['ph']['eid']
@@ -100,7 +113,7 @@ def lookups(case, note):
             note.label('discarded-id-substring')
             return
     with D.TempDir('c10') as top:
-        d = os.path.join(top, 'logs')
+        d = os.path.join(top, case.get('dirname', 'logs'))
         os.makedirs(d)
         D.write_files(d, {nm: M.encode(p) for nm, p in zip(names, pels)})
         # files that are no PELs at all live in the directory too; they must not hide the matches
